@@ -1,7 +1,7 @@
 #!/usr/bin/env python3
 """Run the checks against behaviour-preserving edits: none of them may raise an alarm.
 
-usage: tools/benignrun.py [ID ...]      (default: every directory under benign/)
+usage: tools/benignrun.py [--jobs N] [ID ...]      (default: every directory under benign/; N worktrees side by side)
 
 Each benign/<id>/patch.diff is a harmless refactoring of /repo (renamed locals, exchanged independent statements, a loop
 written differently).  It is applied in one scratch worktree of /repo's main (outside /repo and /verif), the crate's own
@@ -26,7 +26,21 @@ def sh(cmd, cwd=None, env=None):
 
 
 def main():
-    ids = sys.argv[1:] or sorted(os.listdir(os.path.join(VERIF, "benign")))
+    global WT, BUILD
+    args = sys.argv[1:]
+    if args and args[0] == "--jobs":
+        n = int(args[1])
+        ids = args[2:] or sorted(os.listdir(os.path.join(VERIF, "benign")))
+        procs = []
+        for k in range(n):
+            part = ids[k::n]
+            if part:
+                procs.append(subprocess.Popen([sys.executable, os.path.abspath(__file__)] + part, env=dict(os.environ, BENIGNRUN_SUFFIX=f"_{k}")))
+        rcs = [p.wait() for p in procs]
+        return 1 if any(rcs) else 0
+    WT += os.environ.get("BENIGNRUN_SUFFIX", "")
+    BUILD += os.environ.get("BENIGNRUN_SUFFIX", "")
+    ids = args or sorted(os.listdir(os.path.join(VERIF, "benign")))
     sh(f"git -C /repo worktree remove --force {WT}")
     r = sh(f"git -C /repo worktree add --detach {WT} main")
     assert r.returncode == 0, r.stderr
